@@ -29,12 +29,14 @@ META = {
     "rule": "one path per job sequence (j1..jn) index; every job of the sequence is compared with its fresh-process result; "
             "non-trivial = the last job produces at least one command and shares vendor or ACL with an earlier job",
     "explanation": "",
-    "assumptions": ["job corpus: 17 jobs over shipped huawei/cisco/arista/nexus rulebooks (incl. huawei.bgp.undo_commit, cisco.misc.ssh_key, "
-                    "common.default_instead_undo), a synthetic rulebook whose logic mutates its rule argument, and jobs sharing one "
-                    "compiled ACL", "each path starts with annet's known caches cleared, so the history is exactly the sequence",
+    "assumptions": ["job corpus: 23 jobs over shipped huawei (CE/NE/Quidway models), cisco, arista, nexus and aruba rulebooks (incl. "
+                    "huawei.bgp.undo_commit, cisco.misc.ssh_key, common.default_instead_undo), reference tracking (RefTracker), a provider "
+                    "with a rulebook directory of its own, synthetic logic that writes to its rule argument in place (top level and "
+                    "nested), jobs sharing one compiled ACL; compared: diff, command paths, patch text, PatchTree.to_json, ordered "
+                    "config, structural dump of the compiled rulebook", "each path starts with annet's known caches cleared, so the history is exactly the sequence",
                     "fresh-process results are computed once per run in subprocesses"],
     "outside": ["state that neither the caches nor the compared results expose", "generators / storage layers"],
-    "bounds": {"quick": "all sequences of length 2 over 17 jobs", "thorough": "all sequences of length 3"},
+    "bounds": {"quick": "all sequences of length 2 over 23 jobs; fresh-process results under string hash seeds 0..3", "thorough": "all sequences of length 3"},
 }
 
 SYN_RB = "x * %logic=common.default_instead_undo\ny *\nb *\n    x * %logic=common.default_instead_undo\n"
